@@ -8,8 +8,8 @@
    (candidate bytes, proofs, log ids, database faults), and all behaviours of the oracles:
      H (SHA-256), idhash (configured logs), decode (encoding/json), sig_ok (log signature
      verdict), sign / verify (witness key; only sign-then-verify-succeeds is assumed).
-   [strict] = false is /repo as it is, true is /repo + pending_fixes/C19-1 (32-byte proof nodes);
-   [ch] = false is /repo as it is, true is /repo + pending_fixes/C19-2 (refusals answered with
+   [strict] = false is /repo before fix commit 920ddd1, true is /repo now (32-byte proof nodes);
+   [ch] = false is /repo before fix commit 89a3685, true is /repo now (refusals answered with
    the held STH cosigned instead of the stored bytes).  Every theorem holds for both values of
    both, except successor_extends_predecessor, whose unconditional form needs strict = true. *)
 From Coq Require Import String.
@@ -87,8 +87,8 @@ Print Assumptions equal_size_equal_root.
 
 (* each held STH is a genuine extension of every earlier one: if the later root is the Merkle
    tree hash of some leaves, the earlier root is the tree hash of their first p_size p1 -
-   or SHA-256 collides.  Code as it is (strict = false): for executions whose offered
-   consistency proofs have 32-byte nodes; with pending_fixes/C19-1 (strict = true): all. *)
+   or SHA-256 collides.  Code before fix 920ddd1 (strict = false): for executions whose offered
+   consistency proofs have 32-byte nodes; code now (strict = true, the _patched theorem): all. *)
 Theorem successor_extends_predecessor : extension_statement false true.
 Proof. exact successor_extends_predecessor_lemma. Qed.
 Print Assumptions successor_extends_predecessor.
@@ -97,7 +97,7 @@ Theorem successor_extends_predecessor_patched : extension_statement true false.
 Proof. exact successor_extends_predecessor_patched_lemma. Qed.
 Print Assumptions successor_extends_predecessor_patched.
 
-(* The restriction is needed for the code as it is (finding C19-1): a log key that signs
+(* The restriction was needed for the code before the fix (finding C19-1): a log key that signs
    (3, r1) with r1 = H(01 || L || first hlen-1 bytes of leafhash(d2)) gets it stored on first
    use, and then (4, MTH(d0..d3)) is accepted on the proof [s; t; L] with |s| = hlen-1,
    |t| = hlen+1 - although r1 is the root of d0,d1,d2 only if the two different strings
